@@ -3,10 +3,10 @@ From Coq Require Import String Ascii.
 From V.lib Require Import Base.
 From V.c19 Require Import C19Model C19Spec.
 
-Definition avc_parser := str -> option (N * N * (N * N * N)).
+Definition avc_parser := str -> option avc_info.
 Definition hevc_parser := str -> option (N * N * list N).
 
-Definition ex_avc_parse : avc_parser := fun sps => match sps with 103 :: _ => Some (1280, 720, (100, 0, 32)) | _ => None end.
+Definition ex_avc_parse : avc_parser := fun sps => match sps with 103 :: _ => Some (1280, 720, (100, 0, 32, (1, 0, 0))) | _ => None end.
 Definition ex_hevc_parse : hevc_parser := fun sps => match sps with 66 :: _ => Some (960, 540, [0; 0; 2; 536870912; 0; 123; 1; 2; 2]) | _ => None end.
 Definition ex_ops : list op :=
   [ AddEmptyTrack 180000 (BS "video") (BS "und");
